@@ -155,6 +155,71 @@ def _jac():
     return make_loss
 
 
+def _mixed_root():
+    def make_loss(a):
+        shift = torch.tensor([1.0, 2.0], dtype=DT)               # no grad
+        y = rootfinder(lambda y, a, power, shift: a * y ** power - shift, torch.ones(2, dtype=DT), params=(a, 3.0, shift),
+                       method="broyden1", alpha=-0.1, f_tol=1e-12)
+        return (y ** 2).sum()
+    return make_loss
+
+
+def _mixed_ivp():
+    def make_loss(a):
+        ts = torch.linspace(0, 1, 4, dtype=DT)
+        yt = solve_ivp(lambda t, y, a, scale, c: -a * scale * y + c, ts, torch.ones(2, dtype=DT), params=(a, 2.0, torch.zeros(2, dtype=DT)), method="rk4")
+        return (yt ** 2).sum()
+    return make_loss
+
+
+def _mixed_mcquad():
+    def make_loss(a):
+        torch.manual_seed(1)
+        y = mcquad(lambda x, a, p: (a * x ** p).sum(-1, keepdim=True), lambda x, a, p: -(x ** p * a.abs()).sum(), torch.zeros(2, dtype=DT),
+                   fparams=(a, 2), pparams=(a, 2), method="mh", step_size=0.5, nsamples=40, nburnout=10)
+        return (y ** 2).sum()
+    return make_loss
+
+
+def _singular_solve():
+    """the shifted matrix handed to the exact solver is exactly singular (retry path)"""
+    def make_loss(a):
+        A = torch.diag(torch.tensor([1.0, 2.0], dtype=DT)) + torch.diag_embed(a * 0)
+        E = torch.tensor([1.0], dtype=DT)                        # A - 1*I has an exact zero pivot
+        B = torch.tensor([[0.0], [1.0]], dtype=DT)
+        x = solve(xitorch.LinearOperator.m(A + torch.diag_embed(a - a.detach())), B, E, method="exactsolve")
+        return (x ** 2).sum()
+    return make_loss
+
+
+def _diag_symeig():
+    def make_loss(a):
+        A = torch.diag(torch.tensor([0.3, 1.1], dtype=DT)) + torch.diag_embed(a - a.detach())
+        ev, evec = symeig(xitorch.LinearOperator.m(A, is_hermitian=True), neig=1, method="custom_exacteig")
+        return (ev ** 2).sum() + (evec ** 4).sum()
+    return make_loss
+
+
+def _quad_inf(kind, both):
+    def make_loss(a):
+        xl = -float("inf") if both else 0.0
+        if kind == "module":
+            class G(xitorch.EditableModule):
+                def __init__(self, a):
+                    self.a = a
+
+                def g(self, x):
+                    return self.a * torch.exp(-x * x * self.a.abs())
+
+                def getparamnames(self, methodname, prefix=""):
+                    return [prefix + "a"]
+            y = quad(G(a).g, xl, float("inf"))
+        else:
+            y = quad(lambda x, a: a * torch.exp(-x * x * a.abs()), xl, float("inf"), params=(a,))
+        return (y ** 2).sum()
+    return make_loss
+
+
 TABLE = {}
 
 
@@ -184,6 +249,15 @@ for m in ("exacteig", "davidson"):
     _register("symeig[%s]" % m, _symeig(m), ("forward", "backward"))
 _register("mcquad[mh]", _mcquad(), ("forward", "backward"))
 _register("jac", _jac(), ("forward", "backward"))
+
+_register("mixed_params:rootfinder", _mixed_root())
+_register("mixed_params:solve_ivp", _mixed_ivp())
+_register("mixed_params:mcquad", _mixed_mcquad(), ("forward", "backward"))
+_register("singular_shift:solve[exactsolve]", _singular_solve(), ("forward", "backward"))
+_register("singular_shift:symeig[custom_exacteig,diagonal]", _diag_symeig(), ("forward", "backward", "create_graph"))
+for _kind in ("module", "pure"):
+    for _both in (False, True):
+        _register("quad_infinite[%s,%s]" % (_kind, "both" if _both else "upper"), _quad_inf(_kind, _both))
 
 if __name__ == "__main__":
     run_oracles(TABLE, sys.argv)
